@@ -43,7 +43,8 @@ ASSUMPTIONS = ['log-type functions: Re(z1 - i z2) > 0 and Re(z1 + i z2) > 0 (nei
 NOT_DECIDED = ['size of the neighbourhood in floating point; branch behaviour away from the real domain beyond the bounded '
                'sampling; O(h^2) truncation constants (the exact Taylor structure is proved instead)']
 BOUNDED = ['branch group: concrete sampling (fixed grid of bicomplex arguments incl. negative real parts, zero divisors, '
-           'arrays mixing both) -- a stand-in, not a proof', 'array arguments: shape (2,) executed for the element-wise clause']
+           'arrays mixing both) -- a stand-in, not a proof',
+           'branch group, small arguments: 75 samples (5 functions x base points 1e-9..3e-4 x relative perturbations 1e-6..1e-1) compared component-wise (rtol 1e-12) with the idempotent spec evaluated in exact rational arithmetic -- floating point, not proved', 'array arguments: shape (2,) executed for the element-wise clause']
 QUANTIFIED = 'z1 = a + ib, z2 = c + id (four reals), second operands likewise: universally quantified'
 
 
@@ -53,7 +54,7 @@ def enumerated(tier):
 
 def groups(tier):
     return [('ring', ('ring',)), ('entire', ('entire',)), ('log', ('log',)), ('compose', ('compose',)),
-            ('consumers', ('consumers',)), ('branch', ('branch',))]
+            ('consumers', ('consumers',)), ('branch', ('branch',)), ('containers', ('containers',))]
 
 
 def functions_under_contract():
@@ -545,15 +546,75 @@ def run_branch():
             bad.append(('pow2-array-with-zero-divisor',))
     solve.record('branch:sampled-arguments-agree-with-the-idempotent-spec(bounded:%d samples)' % n,
                  'proved' if not bad else 'refuted', 'bounded-sampling', 0.0, None, 'bounded', note=str(bad[:4]))
-    return dict(bounded_samples=n)
+    from ndvc.concrete import small_argument_cases
+    cnt, sbad = small_argument_cases(Bc)
+    solve.record('branch:small-arguments:each-component-relatively-accurate-for-expm1,sin,sinh,tan,tanh(bounded:%d samples)' % cnt,
+                 'proved' if not sbad else 'refuted', 'bounded-sampling', 0.0, None, 'bounded', note=str(sbad[:2])[:400])
+    return dict(bounded_samples=n + cnt)
+
+
+def run_containers():
+    """__array_wrap__ (object array of Bicomplex numbers -> one Bicomplex holding arrays), __getitem__, flat:
+    the number at every index is the number that was at that index, whatever the memory layout of the array"""
+    with fd_env(names=('mc',)) as m:
+        mc = m['mc']
+        Bc = mc.Bicomplex
+
+        def mk(tag):
+            return Bc(cplx('a' + tag), cplx('b' + tag))
+        layouts = [((3,), 'C'), ((2, 3), 'C'), ((2, 3), 'transposed-view'), ((2, 2), 'F'), ((3, 2), 'swapaxes-view'), ((), 'C'), ((2, 2, 2), 'transposed-view')]
+        for shape, layout in layouts:
+            CTX.reset()
+            n = int(np.prod(shape)) if shape else 1
+            if layout == 'C':
+                arr = np.empty(shape, dtype=object)
+            elif layout == 'F':
+                arr = np.empty(shape, dtype=object, order='F')
+            else:
+                arr = np.empty(shape[::-1], dtype=object).T
+            for idx in np.ndindex(shape):
+                arr[idx] = mk('_'.join(map(str, idx)) or '0')
+            tag = 'array_wrap:shape%s,%s:' % (shape, layout)
+            try:
+                out = Bc.__array_wrap__(arr)
+            except Exception as e:
+                solve.fact(tag + 'no-exception', False, note=repr(e)[:200]); continue
+            solve.fact(tag + 'returns-a-Bicomplex-of-the-same-shape', isinstance(out, Bc) and np.shape(out.z1) == shape and np.shape(out.z2) == shape,
+                       note=str((type(out).__name__, np.shape(getattr(out, 'z1', None)))))
+            if not (isinstance(out, Bc) and np.shape(out.z1) == shape):
+                continue
+            for idx in np.ndindex(shape):
+                src = arr[idx]
+                g1, g2 = asobj(out.z1)[idx], asobj(out.z2)[idx]
+                w1, w2 = asobj(src.z1).ravel()[0], asobj(src.z2).ravel()[0]
+                ok = all(u.eq(v) for u, v in zip(parts(C.lift(lift(g1))) + parts(C.lift(lift(g2))), parts(C.lift(lift(w1))) + parts(C.lift(lift(w2)))))
+                solve.fact(tag + 'element%s-is-the-number-that-was-at-that-index' % (idx,), ok, note=str((g1, w1))[:120])
+        # an already wrapped value is returned unchanged
+        b0 = mk('w')
+        solve.fact('array_wrap:Bicomplex-returned-unchanged', Bc.__array_wrap__(b0) is b0)
+        # __getitem__ keeps the pairing of z1 and z2
+        z1 = SymArr([cplx('p%d' % k) for k in range(4)]); z2 = SymArr([cplx('q%d' % k) for k in range(4)])
+        bb = Bc(z1, z2)
+        for k in range(4):
+            e = bb[k]
+            ok = all(u.eq(v) for u, v in zip(parts(C.lift(lift(asobj(e.z1).ravel()[0]))) + parts(C.lift(lift(asobj(e.z2).ravel()[0]))),
+                                             parts(z1[k]) + parts(z2[k])))
+            solve.fact('getitem:[%d]-pairs-z1[%d]-with-z2[%d]' % (k, k, k), ok)
+    return {}
 
 
 def run_group(args):
+    if args[0] == 'containers':
+        return run_containers()
     return {'ring': run_ring, 'entire': run_entire, 'log': run_log, 'compose': run_compose, 'consumers': run_consumers,
             'branch': run_branch}[args[0]]()
 
 
 def replay_case(ob):
     nm = ob['name'].split('/')[-1]
+    if 'small-arguments' in nm:
+        return dict(kind='C12.small')
+    if ob['name'].startswith('containers/'):
+        return dict(kind='C12.containers')
     fn = nm.split(':')[1] if ':' in nm else ''
     return dict(kind='C12.idempotent', group=ob['name'].split('/')[0], function=fn)
